@@ -905,6 +905,7 @@ func TestC12(t *testing.T) {
 	c12SiteSearch(t, rep, orc, base, siteFrames)
 	c12Compose(t, rep, rng, kern, env.Scale(6, 60))
 	c12SourceStream(t, rep, rng, env.Scale(400, 6000))
+	c12SitesStream(t, rep, rng.Fork(), env.Scale(12, 100))
 
 	// generator self-check: every decision class of every filter was exercised
 	want := []string{
